@@ -257,6 +257,52 @@ def decimalOfText (s : Bytes) : Bool × Nat × Int :=
     else 0
   (neg, m, e - nf)
 
+/-- the type chosen from the suffix: no L -> 32 bit, L / LL -> 64 bit, U -> unsigned -/
+def sufType (longs : Nat) (uns : Bool) : PType :=
+  if longs = 0 then (if uns then .u32 else .i32) else (if uns then .u64 else .i64)
+
+/-- sign handling of primitive::load: `+`/`-`, then whitespace -/
+def splitSign (s0 : Bytes) : Bool × Bytes :=
+  if peek s0 = cPlus || peek s0 = cMinus then (peek s0 == cMinus, skipWs (s0.drop 1)) else (false, s0)
+
+/-- the `0b…` / `0x…` branch of primitive::load; `s` is the text after the sign, `C1` the
+    upper-cased second character -/
+def loadFormatted (s0 : Bytes) (neg : Bool) (s : Bytes) (C1 : UInt8) : Prim × Bytes :=
+  let body := s.drop 2
+  let (v, n, rest) := if C1 = 66 then readBin body 0 0 else readHex body 0 0
+  if n = 0 then (primNone, s0)
+  else
+    let bits := (if C1 = 66 then n else 4 * n) + (if neg then 1 else 0)
+    let p := sizedPrim bits neg v
+    let (longs, uns, _, _, rest) := sufLoop true rest 0 false false
+    let ty := sufType longs uns
+    let used := s0.take (s0.length - rest.length)
+    (⟨ty, ty.wrap p.val, used⟩, rest)
+
+/-- the decimal branch of primitive::load; `expLoad` is the recursive `primitive::load(++c)` used
+    for an exponent -/
+def loadDecimal (expLoad : Bytes → Prim × Bytes) (s0 s : Bytes) : Prim × Bytes :=
+  let (digits, dot, s) := scanDigitsDots s 0 false
+  if digits = 0 then (primNone, s0)
+  else
+    let (longs, uns, fl, how, s) := sufLoop false s 0 false false
+    let (dec, fl, rest) :=
+      match how with
+      | .plain => (dot, fl, s)
+      | .exp =>
+        let (ep, r) := expLoad s
+        (true, ep.ty.isFloat, r)
+    let used := s0.take (s0.length - rest.length)
+    if dec || fl then
+      let (n, m, e) := decimalOfText used
+      let d := JsonFloat.ofDecimal JsonFloat.f64 n m e
+      if fl then (⟨.f32, JsonFloat.f64ToF32 d, used⟩, rest)
+      else (⟨.f64, d, used⟩, rest)
+    else
+      let v := parseIntStr used
+      let ty := sufType longs uns
+      (⟨ty, ty.wrap v, used⟩, rest)
+
 /-- primitive::load(const char *&c, includeSign = true).  Returns the primitive and the cursor.
     `fuel` bounds the nesting of exponents (`1e1e1e…`); each level consumes a character. -/
 def loadPrim : Nat → Bytes → Prim × Bytes
@@ -265,42 +311,10 @@ def loadPrim : Nat → Bytes → Prim × Bytes
     if s0.take 4 = sTrue then (⟨.bool, 1, sTrue⟩, s0.drop 4)
     else if s0.take 5 = sFalse then (⟨.bool, 0, sFalse⟩, s0.drop 5)
     else
-    let (neg, s) :=
-      if peek s0 = cPlus || peek s0 = cMinus then (peek s0 == cMinus, skipWs (s0.drop 1)) else (false, s0)
-    let C1 := upper (peek (s.drop 1))
-    if peek s = 48 && (C1 = 66 || C1 = 88) then
-      -- 0b… / 0x…
-      let body := s.drop 2
-      let (v, n, rest) := if C1 = 66 then readBin body 0 0 else readHex body 0 0
-      if n = 0 then (primNone, s0)
-      else
-        let bits := (if C1 = 66 then n else 4 * n) + (if neg then 1 else 0)
-        let p := sizedPrim bits neg v
-        let (longs, uns, _, _, rest) := sufLoop true rest 0 false false
-        let ty : PType := if longs = 0 then (if uns then .u32 else .i32) else (if uns then .u64 else .i64)
-        let used := s0.take (s0.length - rest.length)
-        (⟨ty, ty.wrap p.val, used⟩, rest)
-    else
-      let (digits, dot, s) := scanDigitsDots s 0 false
-      if digits = 0 then (primNone, s0)
-      else
-        let (longs, uns, fl, how, s) := sufLoop false s 0 false false
-        let (dec, fl, rest) :=
-          match how with
-          | .plain => (dot, fl, s)
-          | .exp =>
-            let (ep, r) := loadPrim fuel s
-            (true, ep.ty.isFloat, r)
-        let used := s0.take (s0.length - rest.length)
-        if dec || fl then
-          let (n, m, e) := decimalOfText used
-          let d := JsonFloat.ofDecimal JsonFloat.f64 n m e
-          if fl then (⟨.f32, JsonFloat.f64ToF32 d, used⟩, rest)
-          else (⟨.f64, d, used⟩, rest)
-        else
-          let v := parseIntStr used
-          let ty : PType := if longs = 0 then (if uns then .u32 else .i32) else (if uns then .u64 else .i64)
-          (⟨ty, ty.wrap v, used⟩, rest)
+      let (neg, s) := splitSign s0
+      let C1 := upper (peek (s.drop 1))
+      if peek s = 48 && (C1 = 66 || C1 = 88) then loadFormatted s0 neg s C1
+      else loadDecimal (loadPrim fuel) s0 s
 
 /-! ### comparing and adding numbers -/
 
@@ -508,49 +522,45 @@ def Err.name : Err → String
 
 abbrev Res (α : Type) := Except Err (α × Bytes)
 
-/-- json::loadString after the opening quote: returns the string and the cursor after the
-    closing quote -/
-def loadStr (q : UInt8) : Bytes → Bytes → Res Bytes
-  | [], _ => .error .unclosedString
-  | c :: r, acc =>
-    if c = cBackslash then
-      match r with
-      | [] => .error .unclosedString
-      | d :: r' =>
-        if d = cNl then loadStr q r' acc
-        else if d = 98 then loadStr q r' (acc ++ [cBs])
-        else if d = 102 then loadStr q r' (acc ++ [cFf])
-        else if d = 110 then loadStr q r' (acc ++ [cNl])
-        else if d = 114 then loadStr q r' (acc ++ [cCr])
-        else if d = 116 then loadStr q r' (acc ++ [cTab])
-        else if d = 117 then
-          match r' with
-          | h1 :: h2 :: h3 :: h4 :: r'' =>
-            if isHex h1 then
-              if isHex h2 then
-                if isHex h3 then
-                  if isHex h4 then loadStr q r'' (acc ++ [cBackslash, 117, h1, h2, h3, h4])
-                  else .error .expectedHex
-                else .error .expectedHex
-              else .error .expectedHex
-            else .error .expectedHex
-          | _ => .error .expectedHex
-        else loadStr q r' (acc ++ [d])
+/-- the four characters after `\u` must be hex digits (a NUL / the end is not one) -/
+def hex4 (r : Bytes) : Bool := (r.take 4).length = 4 && (r.take 4).all isHex
+
+/-- json::loadString after the opening quote: returns the string and the cursor after the closing
+    quote.  `esc` = the previous character was a backslash (the C++ handles the pair in one
+    iteration).  After `\uXXXX` the C++ appends `\u` and the four hex digits and skips them; here
+    `\u` is appended and the four (checked) hex digits are then read as ordinary characters,
+    which appends exactly them. -/
+def loadStr (q : UInt8) : Bool → Bytes → Bytes → Res Bytes
+  | _, [], _ => .error .unclosedString
+  | true, d :: r, acc =>
+    if d = cNl then loadStr q false r acc
+    else if d = 98 then loadStr q false r (acc ++ [cBs])
+    else if d = 102 then loadStr q false r (acc ++ [cFf])
+    else if d = 110 then loadStr q false r (acc ++ [cNl])
+    else if d = 114 then loadStr q false r (acc ++ [cCr])
+    else if d = 116 then loadStr q false r (acc ++ [cTab])
+    else if d = 117 then (if hex4 r then loadStr q false r (acc ++ [cBackslash, 117]) else .error .expectedHex)
+    else loadStr q false r (acc ++ [d])
+  | false, c :: r, acc =>
+    if c = cBackslash then loadStr q true r acc
     else if c = q then .ok (acc, r)
-    else loadStr q r (acc ++ [c])
+    else loadStr q false r (acc ++ [c])
 
 /-- lex::skipTo(c, objectKeyEndChars): the bare key and the cursor -/
 def bareKey : Bytes → Bytes → Bytes × Bytes
   | [], acc => (acc, [])
   | c :: r, acc => if isKeyEnd c then (acc, c :: r) else bareKey r (acc ++ [c])
 
-/-- lex::skipTo(c, '\n', '\\') -/
-def skipToNl : Bytes → Bytes
-  | [] => []
-  | c :: r =>
-    if c = cBackslash then (match r with | [] => [] | _ :: r' => skipToNl r')
+/-- lex::skipTo(c, '\n', '\\'); `esc` = the previous character was the escape character -/
+def skipToNlE : Bool → Bytes → Bytes
+  | _, [] => []
+  | true, _ :: r => skipToNlE false r
+  | false, c :: r =>
+    if c = cBackslash then skipToNlE true r
     else if c = cNl then c :: r
-    else skipToNl r
+    else skipToNlE false r
+
+def skipToNl (s : Bytes) : Bytes := skipToNlE false s
 
 mutual
 /-- json::load(const char *&c) -/
@@ -565,7 +575,7 @@ def load : Nat → Bytes → Res Json
     else if c = cLBrace then loadObjLoop n true (s.drop 1) []
     else if c = cLBrack then loadArrLoop n (s.drop 1) []
     else if c = cApos || c = cQuote then
-      match loadStr c (s.drop 1) [] with
+      match loadStr c false (s.drop 1) [] with
       | .ok (str, r) => .ok (.str str, r)
       | .error e => .error e
     else if c = 116 then (if s.take 4 = sTrue then .ok (.num ⟨.bool, 1, []⟩, s.drop 4) else .error .badValue)
@@ -587,7 +597,7 @@ def loadObjLoop : Nat → Bool → Bytes → Obj → Res Json
     else
       -- loadObjectField
       let keyRes : Res Bytes :=
-        if c = cQuote then loadStr cQuote (s.drop 1) []
+        if c = cQuote then loadStr cQuote false (s.drop 1) []
         else .ok (bareKey s [])
       match keyRes with
       | .error e => .error e
